@@ -83,6 +83,37 @@ def run(ctx, R, tier):
         raise AnalysisError("decode-reachable function set smaller than expected (%d)" % len(dset))
     R.note("decode-reachable function set: " + ", ".join(sorted(q.split(".", 1)[1] for q in dset)))
 
+    # ---------------------------------------------------------------- R5 (decided first: it does not depend on the shape of dict_to_class, so a restructured
+    # decoder cannot keep a run-time writer of the whitelist from being reported)
+    ser = p.module("Pyro5.serializers")
+    loops = [st for st in ser.tree.body if isinstance(st, ast.For) and any(isinstance(x, ast.Subscript) and unparse(x.value) == "all_exceptions" and isinstance(x.ctx, ast.Store)
+                                                                          for x in ast.walk(st))]
+    if len(loops) < 2:
+        raise AnalysisError("serializers.py: the module-level loops filling all_exceptions vanished")
+    for lp in loops:
+        src = unparse(lp.iter)
+        ok_src = src in ("vars(builtins).items()", "vars(errors).items()")
+        tests = [n.test for n in ast.walk(lp) if isinstance(n, ast.If)]
+        ok_test = any(any(isinstance(x, ast.Call) and isinstance(x.func, ast.Name) and x.func.id == "issubclass" and len(x.args) == 2 and
+                          unparse(x.args[1]) in ("BaseException", "errors.PyroError", "Exception") for x in ast.walk(t)) for t in tests)
+        stores_guarded = all(any(_inside(x, i) for i in ast.walk(lp) if isinstance(i, ast.If)) for x in ast.walk(lp)
+                             if isinstance(x, ast.Subscript) and isinstance(x.ctx, ast.Store))
+        R.check(ok_src and ok_test and stores_guarded, "C04-R5", "all_exceptions|loop:%s" % src, "whitelist filled from builtins/errors under an issubclass filter",
+                "%s:%d" % (ser.relpath, lp.lineno), "loop over `%s` fills the whitelist without an issubclass(BaseException|PyroError) filter" % src)
+    writers = []
+    for g in p.functions.values():
+        for st, t, k in stores_in(g.node):
+            base = t.value if isinstance(t, ast.Subscript) else t
+            if unparse(base) in ("all_exceptions", "serializers.all_exceptions"):
+                writers.append((g, st))
+        for c, _ in ctx.cg.calls_of(g):
+            if isinstance(c.func, ast.Attribute) and c.func.attr in ("setdefault", "update", "pop", "clear", "popitem", "__setitem__") and \
+                    unparse(c.func.value) in ("all_exceptions", "serializers.all_exceptions"):
+                writers.append((g, c))
+    R.check(not writers, "C04-R5", "all_exceptions|no-runtime-writer", "no function writes the exception whitelist", ser.relpath,
+            "%s modifies the whitelist at run time (`%s`): a tag refused once is accepted the next time" % (
+                writers[0][0].qualname if writers else "", unparse(writers[0][1], 70) if writers else ""))
+
     # ---------------------------------------------------------------- R1
     dtc = ctx.fn("Pyro5.serializers.SerializerBase.dict_to_class")
     cfg = ctx.cfg(dtc)
@@ -357,36 +388,6 @@ def run(ctx, R, tier):
             undeclared[0][0].loc(undeclared[0][1]) if undeclared else px.module.relpath,
             ("Proxy.%s assigns self.%s, which is not in __pyroAttributes: Proxy.__setattr__ treats it as an attribute of the remote object, fetches the metadata and so connects to the "
              "location in the proxy's uri - in __setstate__ that happens while a peer's message is being decoded" % (undeclared[0][0].name, undeclared[0][2])) if undeclared else "")
-
-    # ---------------------------------------------------------------- R5
-    ser = p.module("Pyro5.serializers")
-    loops = [st for st in ser.tree.body if isinstance(st, ast.For) and any(isinstance(x, ast.Subscript) and unparse(x.value) == "all_exceptions" and isinstance(x.ctx, ast.Store)
-                                                                          for x in ast.walk(st))]
-    if len(loops) < 2:
-        raise AnalysisError("serializers.py: the module-level loops filling all_exceptions vanished")
-    for lp in loops:
-        src = unparse(lp.iter)
-        ok_src = src in ("vars(builtins).items()", "vars(errors).items()")
-        tests = [n.test for n in ast.walk(lp) if isinstance(n, ast.If)]
-        ok_test = any(any(isinstance(x, ast.Call) and isinstance(x.func, ast.Name) and x.func.id == "issubclass" and len(x.args) == 2 and
-                          unparse(x.args[1]) in ("BaseException", "errors.PyroError", "Exception") for x in ast.walk(t)) for t in tests)
-        stores_guarded = all(any(_inside(x, i) for i in ast.walk(lp) if isinstance(i, ast.If)) for x in ast.walk(lp)
-                             if isinstance(x, ast.Subscript) and isinstance(x.ctx, ast.Store))
-        R.check(ok_src and ok_test and stores_guarded, "C04-R5", "all_exceptions|loop:%s" % src, "whitelist filled from builtins/errors under an issubclass filter",
-                "%s:%d" % (ser.relpath, lp.lineno), "loop over `%s` fills the whitelist without an issubclass(BaseException|PyroError) filter" % src)
-    writers = []
-    for g in p.functions.values():
-        for st, t, k in stores_in(g.node):
-            base = t.value if isinstance(t, ast.Subscript) else t
-            if unparse(base) in ("all_exceptions", "serializers.all_exceptions"):
-                writers.append((g, st))
-        for c, _ in ctx.cg.calls_of(g):
-            if isinstance(c.func, ast.Attribute) and c.func.attr in ("setdefault", "update", "pop", "clear", "popitem", "__setitem__") and \
-                    unparse(c.func.value) in ("all_exceptions", "serializers.all_exceptions"):
-                writers.append((g, c))
-    R.check(not writers, "C04-R5", "all_exceptions|no-runtime-writer", "no function writes the exception whitelist", ser.relpath,
-            "%s modifies the whitelist at run time (`%s`): a tag refused once is accepted the next time" % (
-                writers[0][0].qualname if writers else "", unparse(writers[0][1], 70) if writers else ""))
 
     # a dict is class-tagged when it HAS the tag key, whatever the tag's value: recreate_classes must dispatch on key membership (a falsy tag is still a tag, and must be rejected)
     rcf = ctx.fn("Pyro5.serializers.SerializerBase.recreate_classes")
